@@ -61,7 +61,8 @@ func convertValueToFloat(value any, typ reflect.Type) (float64, error) {
 	// case int is handled by rv.Convert(typ) in Convert function
 	case string:
 		v, err := strconv.ParseFloat(value, 64)
-		if err != nil {
+		// "nan", "inf" and "infinity" are words, not spellings of a number
+		if err != nil || math.IsNaN(v) || math.IsInf(v, 0) {
 			return 0, conversionError("", value, typ)
 		}
 		return v, nil
